@@ -1236,7 +1236,8 @@ def str_method(I, recv, name, args, kwargs, node):
             return I.mkstr(_map_text(I, sv, on_text, (lambda text: text.replace(old, new)) if old is not None else (lambda text: text)))
         if name in ("upper", "lower", "title", "capitalize"):
             if len(sv.parts) == 1 and isinstance(sv.parts[0], Text):
-                return recv
+                t = sv.parts[0]
+                return Str((Text(f"{t.name}.{name}()", t.removed, t.stripped),))
             return Unk(f"{name}({I.tag(recv)})", "str")
         if name in ("startswith", "endswith"):
             t = I.force(args[0]) if args else NONE
